@@ -54,7 +54,7 @@ def required_counters(tier):
         "kind.dataclass": 10,
         "kind.property": 10,
         "hooked_module.runs": 2,
-        "env.then_update_steps": 100, "window.annotations_built_while_disabled": 100,
+        "env.then_update_steps": 100, "window.annotations_built_while_disabled": 100, "pytest_frontend.sessions": 9,
     }
 
 
@@ -577,10 +577,65 @@ def arm_env(rec, shard):
         shutil.rmtree(scratch, ignore_errors=True)
 
 
+PYTEST_MOD = '''
+import numpy as np
+from jaxtyping import Float
+
+def g(x: Float[np.ndarray, "a"], y: Float[np.ndarray, "a"]):
+    return "ran"
+'''
+PYTEST_TEST = '''
+import json, numpy as np
+def test_observe():
+    import jaxtyping, jtv_c19_pytestmod as m
+    try:
+        r = m.g(np.zeros(2, dtype="float32"), np.zeros(3, dtype="float32"))
+    except Exception as e:
+        r = "exc:" + type(e).__name__
+    json.dump({"g": r, "flag": jaxtyping.config.jaxtyping_disable, "wrapped": hasattr(m.g, "__wrapped__")}, open("obs.json", "w"))
+'''
+
+
+def arm_pytest(rec):
+    """the pytest front end: `pytest --jaxtyping-packages=...` with the switch set in the environment and / or by a
+    conftest.py calling config.update (conftest files are imported before the plugin is configured): the LAST
+    word is the conftest's, whichever way it points"""
+    cases = [(env, cf) for env in (None, "1", "0") for cf in (None, True, False)]
+    for env_v, cf in cases:
+        d = tempfile.mkdtemp(prefix="jtv_c19_pytest_")
+        try:
+            open(os.path.join(d, "jtv_c19_pytestmod.py"), "w").write(PYTEST_MOD)
+            open(os.path.join(d, "test_obs.py"), "w").write(PYTEST_TEST)
+            open(os.path.join(d, "conftest.py"), "w").write("" if cf is None else f"import jaxtyping\njaxtyping.config.update('jaxtyping_disable', {cf!r})\n")
+            env = dict(os.environ)
+            env.pop("JAXTYPING_DISABLE", None)
+            if env_v is not None:
+                env["JAXTYPING_DISABLE"] = env_v
+            env["PYTHONPATH"] = d + os.pathsep + env.get("PYTHONPATH", "")
+            r = subprocess.run([sys.executable, "-m", "pytest", "-q", "-p", "no:cacheprovider", "--jaxtyping-packages=jtv_c19_pytestmod,typeguard.typechecked", "test_obs.py"], cwd=d, env=env, capture_output=True, text=True, timeout=600)
+            try:
+                out = json.load(open(os.path.join(d, "obs.json")))
+            except Exception:
+                rec.inconclusive.append(f"pytest front end produced no observation: {(r.stdout + r.stderr)[-300:]}")
+                continue
+            want_disabled = cf if cf is not None else (env_v == "1")
+            rec.count("pytest_frontend.sessions")
+            rec.case(("pytest", env_v, cf), True)
+            exp = "ran" if want_disabled else "exc:TypeCheckError"
+            if out["flag"] is not want_disabled or out["g"] != exp or not out["wrapped"]:
+                rec.violation("pytest-frontend", {"JAXTYPING_DISABLE": env_v, "conftest_update": cf}, f"pytest --jaxtyping-packages with JAXTYPING_DISABLE={env_v!r} and conftest config.update({cf!r}): flag {out['flag']}, hooked function on ill-typed input {out['g']}, instrumented={out['wrapped']} (expected disabled={want_disabled} -> {exp})", mechanism="pytest-frontend-" + ("conftest-overridden" if cf is not None else "env-ignored"))
+        finally:
+            import shutil
+
+            shutil.rmtree(d, ignore_errors=True)
+
+
 def run_shard(rec, seed, shard, tier):
     warnings.filterwarnings("ignore")
     os.environ.pop("JAXTYPING_DISABLE", None)
     arm_env(rec, shard)
+    if shard["i"] == 1:
+        arm_pytest(rec)
     if True:
         arm_config_update(rec, random.Random(f"{seed}/C19/{shard['i']}"))
     rec.sample({"switch": "config.update('jaxtyping_disable', 'TrUe') between decoration and call", "kind": "classmethod", "input": "ill_param"})
